@@ -25,6 +25,7 @@ RET = [
     (r"^(core|std)::char::methods::<impl char>::len_utf8$", None, BYTE),
     (r"::count$", r"Chars<", CHAR),
     (r"::bytepos$", None, BYTE),
+    (r"^std::io::Read::(read|read_to_string|read_to_end)$|^std::io::Write::write$|^std::fs::read_to_string$.len", None, BYTE),
     (r"(textselection::TextSelection|ResultTextSelection<'store>|store::ResultItem<'store, textselection::TextSelection>)[^:]*>?::(begin|end)$", None, CHAR),
     (r"^textselection::TextSelection::(begin|end|relative_begin|relative_end)$", None, CHAR),
     (r"^api::textselection::<impl .*>::(begin|end)$", None, CHAR),
